@@ -29,10 +29,11 @@ structure Out where
   bytes : Option (List UInt8) := none
   deriving DecidableEq, Repr
 
-def stepM (c : Cbuf) : Op → Out × Cbuf
-  | .write bs => let (r, d, c') := write c bs; ({ ret := r, ndropped := d }, c')
-  | .writeFromFd len av eof => let (r, d, c') := writeFromFd c len av eof; ({ ret := r, ndropped := d }, c')
-  | .writeLine s => let (r, d, c') := writeLine c s; ({ ret := r, ndropped := d }, c')
+def stepM (c : Cbuf) (op : Op) (pol : Policy := chunkPolicy) : Out × Cbuf :=
+  match op with
+  | .write bs => let (r, d, c') := write c bs pol; ({ ret := r, ndropped := d }, c')
+  | .writeFromFd len av eof => let (r, d, c') := writeFromFd c len av eof pol; ({ ret := r, ndropped := d }, c')
+  | .writeLine s => let (r, d, c') := writeLine c s pol; ({ ret := r, ndropped := d }, c')
   | .read len => let (r, bs, c') := read c len; ({ ret := r, bytes := some bs }, c')
   | .peek len => let (r, bs) := peek c len; ({ ret := r, bytes := some bs }, c)
   | .drop len => let (r, c') := drop c len; ({ ret := r }, c')
@@ -59,20 +60,21 @@ def stepS (f : Spec.Fifo) (op : Op) (implRet : Int) (implSize : Nat) : Option (O
   | .flush => some ({ ret := 0 }, Spec.flush f)
   | .optSet v => let (r, f') := Spec.optSet f v; some ({ ret := r }, f')
 
-theorem step_refines {c : Cbuf} (hi : Inv c) (op : Op) :
-    stepS (abs c) op (stepM c op).1.ret (stepM c op).2.size = some ((stepM c op).1, abs (stepM c op).2) ∧
-    Inv (stepM c op).2 := by
+theorem step_refines {c : Cbuf} (hi : Inv c) (op : Op) (pol : Policy := chunkPolicy) [Admissible pol] :
+    stepS (abs c) op (stepM c op pol).1.ret (stepM c op pol).2.size =
+      some ((stepM c op pol).1, abs (stepM c op pol).2) ∧
+    Inv (stepM c op pol).2 := by
   cases op with
   | write bs =>
-    obtain ⟨h1, h2⟩ := write_refines hi bs
+    obtain ⟨h1, h2⟩ := write_refines hi bs pol
     simp only [stepM, stepS]
     exact ⟨by rw [h1]; rfl, h2⟩
   | writeFromFd len av eof =>
-    obtain ⟨h1, h2⟩ := writeFromFd_refines hi len av eof
+    obtain ⟨h1, h2⟩ := writeFromFd_refines hi len av eof pol
     simp only [stepM, stepS]
     exact ⟨by rw [h1]; rfl, h2⟩
   | writeLine s =>
-    obtain ⟨h1, h2, _⟩ := writeLine_refines hi s
+    obtain ⟨h1, h2, _⟩ := writeLine_refines hi s pol
     simp only [stepM, stepS]
     exact ⟨by rw [h1]; rfl, h2⟩
   | read len =>
@@ -107,9 +109,10 @@ theorem step_refines {c : Cbuf} (hi : Inv c) (op : Op) :
     exact ⟨by rw [← h1, ← h2], h3⟩
 
 /-- run a whole history on the model, collecting the answers -/
-def runM (c : Cbuf) : List Op → List Out × Cbuf
+def runM (c : Cbuf) (ops : List Op) (pol : Policy := chunkPolicy) : List Out × Cbuf :=
+  match ops with
   | [] => ([], c)
-  | op :: ops => let (o, c') := stepM c op; let (os, c'') := runM c' ops; (o :: os, c'')
+  | op :: ops => let (o, c') := stepM c op pol; let (os, c'') := runM c' ops pol; (o :: os, c'')
 
 /-- check a whole history of (operation, implementation answer, reported capacity) against the spec -/
 def acceptS (f : Spec.Fifo) : List (Op × Out × Nat) → Option Spec.Fifo
@@ -120,16 +123,17 @@ def acceptS (f : Spec.Fifo) : List (Op × Out × Nat) → Option Spec.Fifo
     | none => none
 
 /-- the annotated history the model itself produces -/
-def traceM (c : Cbuf) : List Op → List (Op × Out × Nat)
+def traceM (c : Cbuf) (ops : List Op) (pol : Policy := chunkPolicy) : List (Op × Out × Nat) :=
+  match ops with
   | [] => []
-  | op :: ops => (op, (stepM c op).1, (stepM c op).2.size) :: traceM (stepM c op).2 ops
+  | op :: ops => (op, (stepM c op pol).1, (stepM c op pol).2.size) :: traceM (stepM c op pol).2 ops pol
 
-theorem run_refines {c : Cbuf} (hi : Inv c) (ops : List Op) :
-    acceptS (abs c) (traceM c ops) = some (abs (runM c ops).2) ∧ Inv (runM c ops).2 := by
+theorem run_refines {c : Cbuf} (hi : Inv c) (ops : List Op) (pol : Policy := chunkPolicy) [Admissible pol] :
+    acceptS (abs c) (traceM c ops pol) = some (abs (runM c ops pol).2) ∧ Inv (runM c ops pol).2 := by
   induction ops generalizing c with
   | nil => exact ⟨rfl, hi⟩
   | cons op ops ih =>
-    obtain ⟨h1, h2⟩ := step_refines hi op
+    obtain ⟨h1, h2⟩ := step_refines hi op pol
     simp only [traceM, acceptS, h1, if_true, runM]
     exact ih h2
 
